@@ -85,10 +85,11 @@ JSON_OPS = ["delete", "null", "wrongtype", "badenum", "empty", "toolong", "forbi
 HUGE = ["PT" + "9" * 400 + "S", "-PT" + "9" * 400 + ".5S"]
 
 
-ORACLE_JSON_OPS = JSON_OPS + ["emptylist", "emptyobj"]      # judged by the oracle only (the model has no non-emptiness rules)
+ORACLE_JSON_OPS = JSON_OPS + ["emptylist", "emptyobj", "dupitem"]      # judged by the oracle only (the model has no non-emptiness rules)
 
 
-JSON_SWEEP_OPS = ["delete", "null", "wrongtype", "empty", "emptylist", "emptyobj", "forbidden"]
+STRUCT_SWEEP_OPS = ["dupitem", "emptylist"]
+JSON_SWEEP_OPS = ["delete", "null", "wrongtype", "empty", "emptylist", "emptyobj", "forbidden", "dupitem"]
 
 
 def damage_json(doc: dict, rng: random.Random, ops: Optional[List[str]] = None, sweep=None) -> Optional[Tuple[str, Tuple]]:
@@ -112,6 +113,10 @@ def damage_json(doc: dict, rng: random.Random, ops: Optional[List[str]] = None, 
         if op == "emptyobj":
             if isinstance(v, dict) and v and last != "modelType":
                 jset(doc, path, {}); return op, path
+            continue
+        if op == "dupitem":
+            if isinstance(v, list) and v:
+                v.append(copy.deepcopy(v[0])); return op, path          # two members with one identifying attribute
             continue
         if op == "delete" and isinstance(last, str):
             jdel(doc, path); return op, path
@@ -221,7 +226,13 @@ def make_doc(seed: int, i: int, depth: int):
 def _make_doc(seed: int, i: int, depth: int):
     from basyx.aas import model
     from basyx.aas.adapter.json import AASToJsonEncoder
-    objs = [c03._make(seed, 5 * (3 * i + k) + (k % 3), depth, 0.35)[0] for k in range(3)]
+    if i == -2:
+        # the structural zoo (every container class holding every element class) next to two ordinary identifiables
+        from vf import gen
+        g = gen.Gen(random.Random(f"C09structures:{seed}"), max_depth=depth)
+        objs = [g.zoo_structures(), c03._make(seed, 1, depth, 0.35)[0], c03._make(seed, 2, depth, 0.35)[0]]
+    else:
+        objs = [c03._make(seed, 5 * (3 * i + k) + (k % 3), depth, 0.35)[0] for k in range(3)]
     for k, o in enumerate(objs):
         o.id = f"urn:doc:{k}:{o.id}"
     # kinds 0,1,2 -> submodel, shell, concept description
@@ -392,7 +403,10 @@ def check_case(case: dict) -> Optional[C.Failing]:
     fmt = case.get("fmt", "json")
     depth = case.get("depth", 3)
     objs, doc = make_doc(case["seed"], case["index"], depth)
-    want = {o.id: canon.canon(o) for o in objs}
+    wkey = ("want", case["seed"], case["index"], depth)
+    if wkey not in _DOCS:
+        _DOCS[wkey] = {o.id: canon.canon(o) for o in objs}
+    want = _DOCS[wkey]
     if fmt == "json":
         if "sweep" in case:
             dmg = damage_json(doc, rng, ORACLE_JSON_OPS, tuple(case["sweep"]))
@@ -422,7 +436,8 @@ def check_case(case: dict) -> Optional[C.Failing]:
     except Exception as e:
         return C.Failing(f"failsafe:{fmt}:raises:{root_cause(e)}", f"failsafe {fmt} reader raised {type(e).__name__} on a document damaged by "
                          f"'{op}' at {path}: {str(e)[:120]}", dict(case, op=op, path=list(path)))
-    got_c = {o.id: canon.canon(o) for o in got}
+    light = "sweep" in case           # per-position sweeps: the (large) damaged identifiable itself is not canonicalised
+    got_c = {o.id: (None if light and o.id == damaged_id else canon.canon(o)) for o in got}
     for oid, c in want.items():
         if oid == damaged_id:
             continue
@@ -434,7 +449,7 @@ def check_case(case: dict) -> Optional[C.Failing]:
             return C.Failing(f"failsafe:{fmt}:undamaged-changed", f"undamaged identifiable {oid!r} changed: {d[:160]}", dict(case, op=op, path=list(path)))
     try:
         strict = reader(False)
-        sc = {o.id: canon.canon(o) for o in strict}
+        sc = {o.id: (None if light and o.id == damaged_id else canon.canon(o)) for o in strict}
         if json.dumps(sc, sort_keys=True, default=str) != json.dumps(got_c, sort_keys=True, default=str):
             return C.Failing(f"strict:{fmt}:differs-from-failsafe", f"strict and failsafe results differ after '{op}' at {path}",
                              dict(case, op=op, path=list(path)))
@@ -458,7 +473,7 @@ def objs_id_at(objs, path):
 
 
 XML_OPS = ["delete", "emptytext", "badtext", "unknowntag", "toolong", "wronglist", "hugeliteral", "toplist", "topunknown", "pi",
-           "emptychildren", "retagchildren", "nonamespace", "topnonamespace"]
+           "emptychildren", "retagchildren", "nonamespace", "topnonamespace", "dupchild"]
 AASNS = "https://admin-shell.io/aas/3/0"
 
 
@@ -484,7 +499,10 @@ def damage_xml(objs, rng: random.Random, sweep=None):
     from lxml import etree
     from basyx.aas import model
     from basyx.aas.adapter.xml import xml_serialization
-    root = xml_serialization.object_store_to_xml_element(model.DictObjectStore(objs))
+    xkey = ("xml", tuple(id(o) for o in objs))
+    if xkey not in _DOCS:
+        _DOCS[xkey] = etree.tostring(xml_serialization.object_store_to_xml_element(model.DictObjectStore(objs)))
+    root = etree.fromstring(_DOCS[xkey])
     idents = [el for lst in root for el in lst]
     ns = "{https://admin-shell.io/aas/3/0}"
     if sweep is not None:
@@ -523,6 +541,10 @@ def damage_xml(objs, rng: random.Random, sweep=None):
                     e.remove(ch)
                 return root, damaged_id, op
             continue
+        if op == "dupchild":
+            if len(e) > 0:
+                e.append(copy.deepcopy(e[0])); return root, damaged_id, op         # two members with one identifying attribute
+            continue
         if op == "retagchildren":
             if len(e) > 0:
                 for ch in list(e):
@@ -554,7 +576,7 @@ def oracle(ctx: C.Ctx, cov: C.Coverage, n: Optional[int] = None, seed: Optional[
     out, sigs = [], set()
     seed = ctx.seed if seed is None else seed
     depth = 3 if ctx.tier == "quick" else 4
-    for i in range(n or ctx.budget(250, 6000)):
+    for i in range(n or ctx.budget(150, 6000)):
         for fmt in ("json", "xml"):
             f = check_case({"seed": seed, "index": i, "fmt": fmt, "depth": depth})
             cov.hit("oracle:" + fmt)
@@ -571,20 +593,27 @@ def oracle(ctx: C.Ctx, cov: C.Coverage, n: Optional[int] = None, seed: Optional[
             chosen.append(i)
         if len(chosen) >= (1 if ctx.tier == "quick" else 12):
             break
-    for i in chosen[:1 if ctx.tier == "quick" else 6]:
+    for i in [-2] + (chosen[:6] if ctx.tier != "quick" else []):
         _, doc_ = make_doc(seed, i, depth)
-        for k in range(len([p for p in json_paths(doc_) if len(p) >= 3])):
+        paths_ = [p for p in json_paths(doc_) if len(p) >= 3]
+        for k in range(len(paths_)):
+            is_list = isinstance(jget(doc_, paths_[k]), list)
             for op in JSON_SWEEP_OPS:
+                if ctx.tier == "quick" and not ((is_list and op in STRUCT_SWEEP_OPS) or k % 30 == (seed % 30)):
+                    continue          # quick: structural damage at every list, everything else at every 30th position
                 f = check_case({"seed": seed, "index": i, "fmt": "json", "depth": depth, "sweep": [k, op]})
                 cov.hit("oracle:json-sweep")
                 if f and f.sig not in sigs:
                     sigs.add(f.sig); out.append(f)
-    for i in chosen:
+    for i in [-2] + (chosen if ctx.tier != "quick" else []):
         objs_, _ = make_doc(seed, i, depth)
         root_ = _xs.object_store_to_xml_element(_m.DictObjectStore(objs_))
         nnodes = sum(1 for lst in root_ for t in lst for e in t.iter() if isinstance(e.tag, str) and e is not t)
+        flat_ = [e for lst in root_ for t in lst for e in t.iter() if isinstance(e.tag, str) and e is not t]
         for k in range(nnodes):
-            for op in SWEEP_OPS:
+            for op in SWEEP_OPS + ["dupchild"]:
+                if ctx.tier == "quick" and not ((len(flat_[k]) > 0 and op in ("dupchild", "emptychildren")) or k % 30 == (seed % 30)):
+                    continue
                 f = check_case({"seed": seed, "index": i, "fmt": "xml", "depth": depth, "sweep": [k, op]})
                 cov.hit("oracle:xml-sweep")
                 if f and f.sig not in sigs:
